@@ -77,9 +77,12 @@ def add_fn(p, module, name, params=(), data_path=None, const=1, path_style="lit"
     return fid
 
 
-def add_cls(p, module, name, method="meth", const=1, var=None, calls=None, attr=None):
+def add_cls(p, module, name, method="meth", const=1, var=None, calls=None, attr=None, prop=False):
+    """prop: the method is a property (read as an attribute) that also has a setter (a second function of the same name in the class body)."""
     cid = "c_" + name
     p["classes"][cid] = {"module": module, "name": name, "method": method, "const": const, "var": var, "calls": calls, "comment": "c0", "attr": attr}
+    if prop:
+        p["classes"][cid]["prop"] = True
     p["order"][module].append(("cls", cid))
     return cid
 
@@ -120,8 +123,11 @@ def s_load(path, form="assign"):
     return {"k": "load", "path": path, "form": form}
 
 
-def s_ref(fid):
-    return {"k": "ref", "fn": fid}
+def s_ref(fid, runner=None):
+    d = {"k": "ref", "fn": fid}
+    if runner:
+        d["runner"] = runner  # "thread": the untracked runner calls the function in a worker thread
+    return d
 
 
 def s_lambda_keep(path, const):
@@ -342,8 +348,15 @@ def _arg_src(ctx, fn, a):
 def _raise_line(f):
     """raise of a registered exception object: with a message, without arguments (str(e) == ''), or with an empty text."""
     msg = f["fail"].get("msg", "text")
-    args = {"text": ", 'boom from %s'" % f["name"], "none": "", "empty": ", ''", "multiline": ", 'boom\\nfrom %s'" % f["name"]}[msg]
-    return "    raise vlog.make_exc(%r, %s%s)" % (f["name"], f["fail"]["cls"], args)
+    args = {"text": ", 'boom from %s'" % f["name"], "none": "", "empty": ", ''", "multiline": ", 'boom\\nfrom %s'" % f["name"]}.get(msg, "")
+    mk = "vlog.make_exc(%r, %s%s)" % (f["name"], f["fail"]["cls"], args)
+    if msg == "chained":
+        # raised with an explicit cause
+        return "    raise vlog.make_exc(%r, %s, 'boom from %s') from vlog.make_exc(%r, ValueError, 'root cause')" % (f["name"], f["fail"]["cls"], f["name"], f["name"] + ":cause")
+    if msg == "while_handling":
+        # raised while another error is being handled (implicit context)
+        return "    try:\n        raise vlog.make_exc(%r, KeyError, 'first problem')\n    except KeyError:\n        raise vlog.make_exc(%r, %s, 'boom from %s')" % (f["name"] + ":cause", f["name"], f["fail"]["cls"], f["name"])
+    return "    raise " + mk
 
 
 def render_fn(p, fid, ctx, prelude):
@@ -424,7 +437,7 @@ def _render_fn_lines(p, fid, ctx, prelude):
                 le = "(\"{d}\".format(d=%s), %s)" % (le, le)
             lines.append("    x%d = %s" % (i, le))
         elif k == "ref":
-            lines.append("    x%d = vlog.call0(%s)" % (i, ctx.fn_expr(s["fn"], need_bare=True)))
+            lines.append("    x%d = vlog.%s(%s)" % (i, "call0_thread" if s.get("runner") == "thread" else "call0", ctx.fn_expr(s["fn"], need_bare=True)))
         elif k == "lambda_keep":
             lines.append("    x%d = dds.keep(%r, lambda: (\"lam\", %d))" % (i, s["path"], s["const"]))
         elif k == "lambda_call":
@@ -464,7 +477,7 @@ def _render_fn_lines(p, fid, ctx, prelude):
                 lines.append("    x%d = dds.eval(%s)" % (i, ctx.fn_expr(s["fn"], need_bare=True)))
         elif k == "method":
             c = p["classes"][s["cls"]]
-            lines.append("    x%d = %s(%s).%s()" % (i, ctx.cls_expr(s["cls"]), s["arg"], c["method"]))
+            lines.append("    x%d = %s(%s).%s%s" % (i, ctx.cls_expr(s["cls"]), s["arg"], c["method"], "" if c.get("prop") else "()"))
         elif k == "clsref":
             lines.append("    x%d = vlog.run_cls(%s)" % (i, ctx.cls_expr(s["cls"])))
         elif k == "clsattr":
@@ -506,7 +519,7 @@ def _render_fn_lines(p, fid, ctx, prelude):
 
 def render_cls(p, cid, ctx):
     c = p["classes"][cid]
-    lines = ["class %s(object):" % c["name"], "    # %s" % c.get("comment", "c0")] + (["    LEVEL = %d" % c["attr"], ""] if c.get("attr") is not None else []) + ["    def __init__(self, a):", "        self.a = a", "", "    def %s(self):" % c["method"],
+    lines = ["class %s(object):" % c["name"], "    # %s" % c.get("comment", "c0")] + (["    LEVEL = %d" % c["attr"], ""] if c.get("attr") is not None else []) + ["    def __init__(self, a):", "        self.a = a", ""] + (["    @property"] if c.get("prop") else []) + ["    def %s(self):" % c["method"],
              "        vlog.hit(%r)" % (c["name"] + "." + c["method"])]
     items = ["%r" % (c["name"] + "." + c["method"]), "%d" % c["const"], "self.a"]
     if c.get("var"):
@@ -516,6 +529,8 @@ def render_cls(p, cid, ctx):
         items.append("%s()" % ctx.fn_expr(c["calls"]))
         lines += ["        " + l for l in ctx.local_imports]
     lines.append("        return (%s,)" % ", ".join(items))
+    if c.get("prop"):
+        lines += ["", "    @%s.setter" % c["method"], "    def %s(self, value):" % c["method"], "        self.a = value"]
     return "\n".join(lines) + "\n"
 
 
